@@ -160,7 +160,8 @@ def ops_cases():
             cs.append({"ops": pre + [{"op": "lshift", "i": 0, "other": o}]})
             cs.append({"ops": pre + [{"op": "rshift", "i": 0, "other": o}]})
         for fn in ARITH:
-            for v in (["b", True], ["i", 2], ["f", H(0.5)], ["c", H(0.0), H(1.0)], ["N"], ["s", "x"], ["td", 1]):
+            # (negative and zero ints: int ** -1 is a float, int // -2 floors, x % -3 takes the divisor's sign)
+            for v in (["b", True], ["i", 2], ["f", H(0.5)], ["c", H(0.0), H(1.0)], ["N"], ["s", "x"], ["td", 1], ["i", -1], ["i", -2], ["i", 0]):
                 cs.append(_prog(base, {"op": "arith", "fn": fn, "i": 0, "other": ["scalar", v]}))
         for fn in ("neg", "pos", "abs"):
             cs.append(_prog(base, {"op": "unary", "fn": fn, "i": 0}))
